@@ -11,6 +11,21 @@ const HEAD: &str = "#![allow(unused, non_camel_case_types, clippy::all)]\nuse cr
 /// assertions shared by all mappings: by-ref == owned, Try == Ok(infallible); `tl`/`tfl`: counterpart literals,
 /// `sl`/`sfl`: deriving-type literals (for the infallible / fallible deriving type)
 fn flavour_block(o: &mut String, a: &str, sn: &str, sfn: &str, tty: &str, tfty: &str, tl: &str, tfl: &str, sl: &str, sfl: &str, refs: bool) {
+    flavour_block2(o, a, sn, sfn, tty, tfty, tl, tfl, sl, sfl, refs, true)
+}
+
+/// `same_instrs`: the fallible and infallible flavours are governed by the same instructions (else only the
+/// comparisons inside one fallibility class are made)
+fn flavour_block2(o: &mut String, a: &str, sn: &str, sfn: &str, tty: &str, tfty: &str, tl: &str, tfl: &str, sl: &str, sfl: &str, refs: bool, same_instrs: bool) {
+    if !same_instrs {
+        let _ = writeln!(o, "  {{ let t: {tty} = {tl}; let tf: {tfty} = {tfl};");
+        let _ = writeln!(o, "    r.same(\"from_ref==from_owned/{a}\", dbg(&<{sn} as From<&{tty}>>::from(&t)), dbg(&<{sn} as From<{tty}>>::from(t.clone())));");
+        let _ = writeln!(o, "    r.same(\"try_from_ref==try_from_owned/{a}\", dbg(&<{sfn} as TryFrom<&{tfty}>>::try_from(&tf)), dbg(&<{sfn} as TryFrom<{tfty}>>::try_from(tf.clone()))); }}");
+        let _ = writeln!(o, "  {{ let s: {sn} = {sl}; let sf: {sfn} = {sfl};");
+        let _ = writeln!(o, "    r.same(\"ref_into==owned_into/{a}\", dbg(&<&{sn} as Into<{tty}>>::into(&s)), dbg(&<{sn} as Into<{tty}>>::into(s.clone())));");
+        let _ = writeln!(o, "    r.same(\"try_ref_into==try_owned_into/{a}\", dbg(&<&{sfn} as TryInto<{tfty}>>::try_into(&sf)), dbg(&<{sfn} as TryInto<{tfty}>>::try_into(sf.clone()))); }}");
+        return;
+    }
     let _ = writeln!(o, "  {{ let t: {tty} = {tl}; let tf: {tfty} = {tfl};");
     let _ = writeln!(o, "    let fo = dbg(&<{sn} as From<{tty}>>::from(t.clone()));");
     if refs {
@@ -58,7 +73,8 @@ pub fn struct_module(c: &SCase) -> String {
         let sv: Vec<i64> = (0..n).map(|k| c.sval(k, assign)).collect();
         let pre: Vec<i64> = (0..nslots).map(|j| SCase::PRE + j as i64).collect();
         let a = assign.to_string();
-        flavour_block(&mut o, &a, sn, sfn, &tty, &tfty, &c.cp_literal("T", &tv), &c.cp_literal(if bare { "T" } else { "Tf" }, &tv), &c.s_literal(sn, &sv), &c.s_literal(sfn, &sv), true);
+        let same_instrs = !c.members.iter().any(|m| m.mi == crate::sem_struct::MI::FalliblePair);
+        flavour_block2(&mut o, &a, sn, sfn, &tty, &tfty, &c.cp_literal("T", &tv), &c.cp_literal(if bare { "T" } else { "Tf" }, &tv), &c.s_literal(sn, &sv), &c.s_literal(sfn, &sv), true, same_instrs);
         // into_existing: mapped leaves equal what `into` produced, unmapped leaves keep their pre-values
         if nslots > 0 && c.form != CpForm::AsUnit {
             for (label, sexpr, owned, fallible) in [("owned_into_existing", "s.clone()", true, false), ("ref_into_existing", "&s", false, false), ("try_owned_into_existing", "sf.clone()", true, true), ("try_ref_into_existing", "&sf", false, true)] {
